@@ -38,6 +38,175 @@ add("C02", "exploration",
     "value pools without ==/!= inconsistency; del and dispatch='ui'/'new' are not in this check's alphabet.",
     "DESIGN.md section 4 C02")
 
+
+add("C01", "exploration",
+    "reference-predicate monitor (independent per-type domain predicates) over a value lattice x option grid x three assignment routes",
+    "Every atomic trait type of traits.api with its option grid (about 130 specs) plus seeded nestings "
+    "(Tuple/Union/Either/List/Dict/Set, depth <= 2 quick / 3 thorough) is assigned every value of a ~300-value "
+    "hostile lattice through attribute assignment, constructor keyword and trait_set; the outcome (stored value, "
+    "TraitError naming the attribute, passed-through protocol exception, no effect on any attribute) is judged "
+    "against outcome sets computed by reference predicates written from the documentation. Held on the "
+    "(spec, value, route) triples observed.",
+    "Trusted: vf/reference.py (about 350 lines) and vf/lattice.py; for compounds any accepting member's "
+    "conversion is acceptable (member order is C03's question); File/Directory(exists), UUID, WeakRef excluded.",
+    "DESIGN.md section 4 C01")
+
+add("C03", "exploration",
+    "differential monitor: C fast path vs the handler's Python validate, and compound vs each alternative alone",
+    "For every fast-descriptor spec (112 catalogue specs + compounds) x a 354-value lattice the outcome of "
+    "CTrait.validate (run asserts a fast descriptor tuple is installed) is compared with the handler's Python "
+    "validate (accept/TraitError, exact type, value), and every compound is compared with its alternatives "
+    "validated alone through fresh CTraits (first accepting alternative in evaluation order), which also pits "
+    "the stand-alone C validators against the switch inside validate_trait_complex.",
+    "Trusted: the lattice, same(); 'Python raises non-TraitError while C raises TraitError' is allowed and only "
+    "counted. Known findings F4, F25-F27 (legacy TraitCoerceType, adapt default in compounds) are listed.",
+    "DESIGN.md section 4 C03")
+
+add("C04", "exploration",
+    "invariant walk + failure-atomicity + silence monitors after every operation of random container histories",
+    "62 List/Dict/Set configurations (inner traits x length bounds, nested List(List), Dict(Str, List)) driven by "
+    "random 20-op histories over every mutator with valid/convertible/invalid items at every position; after "
+    "every op the contents are walked against independent domain predicates and the inner trait's own validate "
+    "(fixed point), length bounds are checked, a raising op must leave contents identical and deliver zero "
+    "notifications on six recorded mechanisms, and an op that would store an invalid item or leave the bounds "
+    "must raise TraitError.",
+    "Trusted: the in_domain predicates (Int stores exact int etc.), built-in containers as the model of what "
+    "an op would store. Stale containers after reassignment are only required not to corrupt the current value.",
+    "DESIGN.md section 4 C04")
+
+add("C06", "exploration",
+    "reference-model monitor (built-in dict) + event reconstruction law, exhaustive single ops on small dicts + random histories",
+    "TraitDict / TraitDictObject under no/rejecting/coercing validators: exhaustive single operations on dicts "
+    "of size 0-3 over an 8-key universe plus random 20-op histories; contents (incl. insertion order), return "
+    "values, exception classes compared with dict; every (removed, added, changed) event must reconstruct the "
+    "previous contents; the DictChangeEvent seen by observers and the raw notifier arguments are checked for "
+    "every position of the raw notifier relative to observers.",
+    "Trusted: dict as specification, identity comparison of values. Known findings F13 (setdefault through a "
+    "converting key validator, pinned by the repository's own test) and F28 (keys-only mappings) are listed.",
+    "DESIGN.md section 4 C06")
+
+add("C07", "exploration",
+    "reference-model monitor (built-in set) + delta law + copy law, exhaustive single ops + random histories",
+    "TraitSet / TraitSetObject under no/rejecting/coercing/time-varying validators: exhaustive single operations "
+    "on small sets plus random 20-op histories over all mutators incl. multi-iterable and non-set operands; "
+    "contents and exception classes compared with set, every event must satisfy removed <= before, added "
+    "disjoint, (before - removed) | added == after, no-change ops silent; copy/deepcopy/pickle(0-5) at random "
+    "points must give an equal, independent, still-validating set.",
+    "Trusted: set as specification. Pickled/copy.copy'd TraitSetObject copies are documented as detached and "
+    "only checked for equality/independence.",
+    "DESIGN.md section 4 C07")
+
+add("C08", "exploration",
+    "reachability-model monitor with a probe phase after every primitive mutation step",
+    "A pool of interlinked Node objects (Instance, List, Dict, Set links, lazy defaults, tagged traits, optional "
+    "all-nodes-equal __eq__) observed through catalogue and generated expressions (text and expression objects); "
+    "after every mutation every probe-able trait of every pool object is changed once and the events each handler "
+    "received are compared with an independent denotation-over-live-graph model: exactly one TraitChangeEvent "
+    "with the right object/name iff matched, container events with faithful payloads on notifying links, silence "
+    "on ':' links and detached objects, and no exception escaping a legal mutation. Four strata (acyclic, cyclic, "
+    "enumerated cycle-through-root, equal twins).",
+    "Trusted: the monitor's own mini-language parser and reachability walk (behaviour only; no private "
+    "counters inspected). Known findings F15/F16 (multi-level observables) and F34 (set discard of an equal "
+    "twin) are listed under their own keys.",
+    "DESIGN.md section 4 C08")
+
+add("C09", "exploration",
+    "registration-count model + notifier-census monitor; enumerated failure positions; weakref/gc and thread stress strata",
+    "Histories interleaving observe add/remove for several handlers, expressions and dispatch modes (same, ui "
+    "with a queued harness UI handler) with graph mutations; model = multiset count per (handler, canonical "
+    "graph, dispatch); after each step a probe phase and a census of every notifier list; failing add/remove "
+    "enumerated over every node index of walks up to depth 4 x fan-out 3 and over parallel graphs; weakness of "
+    "targets and bound-method owners under gc (some runs with gc threshold (1,1,1)); 4-thread stress with a "
+    "final-census oracle only.",
+    "Trusted: the census accessors (read-only), the canonical graph model. Preemptive thread interleavings are "
+    "only stressed, not explored. Known findings F7a-c (rollback across siblings / parallel graphs) are listed.",
+    "DESIGN.md section 4 C09")
+
+add("C11", "exploration",
+    "interpreter-model monitor for deferred traits over random histories, with recorders on the deferring attribute",
+    "DelegatesTo / PrototypedFrom x four prefix styles x listenable x chains of two deferrals x two candidate "
+    "delegates, random 15-op histories (assign via deferring object valid/invalid, assign on candidates, swap "
+    "delegate, del local value, reads); a 30-line interpreter predicts reads, where writes land, accept/reject, "
+    "and which changes must / must not notify on_trait_change and observe recorders of the deferring attribute.",
+    "Trusted: the interpreter (DelegatesTo write = setattr on the current delegate, recursively). Swapping the "
+    "delegate itself and paths through listenable=False levels are not judged for notification. Known findings "
+    "F29/F30 (chain writes) are listed.",
+    "DESIGN.md section 4 C11")
+
+add("C12", "exploration",
+    "recompute-and-compare monitor for observed properties over random histories incl. pickle/deepcopy/clone switches",
+    "Classes with cached and uncached Property(observe=...) over scalar, nested, list/dict/set item dependencies "
+    "with shared and repeated elements; random 20-step histories of relevant/irrelevant mutations and reads, "
+    "switching at random to a pickle / deepcopy / clone_traits copy; every read is compared with the harness's own "
+    "recomputation, cached getters may run at most once per relevant-change window, and every value-changing "
+    "dependency change must notify static, on_trait_change and observe recorders with the new value readable.",
+    "Trusted: getters are pure functions recomputed by the harness. Reads made inside a static handler of the "
+    "dependency itself (before the invalidating observer runs) are counted, not judged. Legacy depends_on is "
+    "outside the statement and not run.",
+    "DESIGN.md section 4 C12")
+
+add("C13", "exploration",
+    "resolution-model monitor over generated class hierarchies with a fingerprint of get/set/del outcomes",
+    "Generated hierarchies (HasTraits/HasStrictTraits/HasPrivateTraits bases, explicit traits of 9 kinds, "
+    "wildcard rules of several lengths split between base and subclass) and names matching 0/1/several "
+    "prefixes; random histories of get/set/del with a fingerprint quadruple, add_trait/remove_trait, on several "
+    "instances of base and subclass in random order; a resolution function written from the manual predicts "
+    "the governing trait and therefore the outcome class and value of every access, incl. ReadOnly/Constant/"
+    "Event/Disallow policies and restoration after remove_trait.",
+    "Trusted: the resolution model; __dunder__ names executed but not judged; leftover values after a change of "
+    "governing trait are unspecified and adopted. Known findings F22/F23 (late subclass / late add_class_trait "
+    "after a name was resolved and cached) are listed.",
+    "DESIGN.md section 4 C13")
+
+add("C16", "exploration",
+    "differential monitor: legacy on_trait_change extended names vs observe vs a reachability model, with a probe phase",
+    "Tree-shaped graphs only; 102 (thorough 163) name pairs expressible in both systems (., :, list/dict/set "
+    "links, depth-3 mixes, groups); one recorder per API on the same root; random histories of link "
+    "reassignment, container mutation, detachment and re-insertion of detached subtrees, then removal of both "
+    "registrations; after every step the final attribute is changed on every attached and recently detached "
+    "node and the legacy 4-argument and 0-argument calls are compared class by class with the observe events "
+    "and the model.",
+    "Trusted: the small reachability model; only non-empty matched comparisons are gated. Item-level mutation of "
+    "'.' links is compared through the legacy 0-argument signature only (4-argument silence there is by design).",
+    "DESIGN.md section 4 C16")
+
+add("C17", "exploration",
+    "brute-force reference monitor: enumeration of all offer sequences vs AdaptationManager.adapt and the adapting traits",
+    "Per case a fresh AdaptationManager, up to 6 uniquely named classes (single/multiple inheritance, ABC "
+    "registration), up to 7 offers incl. duplicates, cycles, provides-offers and deterministic conditional "
+    "factories; for every source x target the result of adapt (with and without default) and of Supports / "
+    "AdaptsTo / Instance(adapt=...) assignment is compared with brute-force enumeration: existence, minimum "
+    "number of offers, specificity among single-step choices, identity when already provided; a step counter "
+    "bounds non-termination.",
+    "Trusted: the brute-force enumerator; 'minimum number of adapters' is read as number of offers (manual). "
+    "Specificity is judged only where issubclass is transitive. Known finding F31 (incomparable applicable "
+    "sources under multiple inheritance) is listed.",
+    "DESIGN.md section 4 C17")
+
+add("C18", "other",
+    "compiler sanitizers (ASan+UBSan+live asserts) over hostile/chaos/fault-injected API programs; refcount and allocated-block drift monitors",
+    "Phase san: 20 hostile scenario families, thousands of generated API programs whose user callbacks perform "
+    "hostile actions during the C call (remove the trait being processed, replace __dict__, mutate notifier "
+    "lists, gc, re-enter, raise), k-th-callback fault injection, and the other properties' workloads at a "
+    "fraction of their budget, against an ASan+UBSan build of ctraits.c with asserts enabled and "
+    "PYTHONMALLOC=malloc; any sanitizer report, abort or signal is attributed to its case by a write-ahead log. "
+    "Phase ref: 217 operation x sentinel experiments, refcount steady from iteration 10 of 200 and block drift "
+    "< 0.25/iteration. Thorough adds the repository's own test modules under the sanitized build.",
+    "A clean run is not memory safety (red zones, uninstrumented CPython, no MSan). Only documented entry "
+    "points are driven (no crafted __setstate__, no malformed set_validate descriptors).",
+    "DESIGN.md section 4 C18")
+
+add("C20", "exploration",
+    "link-graph model monitor (union-find + one-way edges) over random two/three-object histories with recorders and exception channels",
+    "2-3 objects with Int/Str/List(Int) traits; histories of sync_trait (mutual, one-way, aliases, several "
+    "partners), assignments, every list mutator on either side, remove=True at any point, dropping a partner + "
+    "gc.collect(), re-linking; after every op mutual classes must be equal, one-way targets follow real source "
+    "changes only, recorders get at most one call per real change, nothing propagates / raises / reaches the "
+    "exception channels after unlink or partner collection, and a step budget bounds runaway propagation.",
+    "Trusted: the link model; re-entrancy rather than threads is the schedule dimension. Known finding F32 "
+    "(lists linked along redundant paths) is listed in its own stratum and keys.",
+    "DESIGN.md section 4 C20")
+
 NOT_YET = {}
 
 
